@@ -171,14 +171,17 @@ def oracle(case, impl):
             j = ids.index(tgt) if tgt is not None else None
             if not binders:
                 out.append(('resolved-unbound', f'filter {i}: {f!r} is bound by no filter')); continue
+            def host_ok(b):
+                bk = next(k for k in binds[b] if (k[0], k[1]) == key)
+                return key[0] != 'tcp' or host == ('localhost' if (bk[2][:1] in ('', '*', '0')) else bk[2])
             if j is None:
-                if not any(b < i for b in binders): out.append(('autochain-not-previous', f'filter {i}: auto-chained to {f!r}, bound by {binders}'))
-                j = max((b for b in binders if b < i), default=binders[0])
+                prev = [b for b in binders if b < i]
+                if not prev: out.append(('autochain-not-previous', f'filter {i}: auto-chained to {f!r}, bound by {binders}'))
+                j = next((b for b in reversed(prev) if host_ok(b)), (prev or binders)[-1])      # user-duplicated binds: any earlier binder with that host
             elif j not in binders:
                 out.append(('resolved-wrong-filter', f'filter {i}: {tgt!r} -> {f!r}, but that is bound by {binders}')); continue
-            bk = next(k for k in binds[j] if (k[0], k[1]) == key)
-            if key[0] == 'tcp' and host != ('localhost' if (bk[2][:1] in ('', '*', '0')) else bk[2]):
-                out.append(('resolved-wrong-host', f'filter {i}: {f!r} for a filter binding host {bk[2]!r}'))
+            if not host_ok(j):
+                out.append(('resolved-wrong-host', f'filter {i}: {f!r} for filter {j} which binds {binds[j]!r}'))
             if len(binders) > 1:
                 autos = [b for b in binders if auto_out[b]]
                 if not autos: case.setdefault('_notes', []).append('user-duplicate-bind')      # user's own doing, excluded (see ASSUMPTIONS)
